@@ -15,24 +15,37 @@ def decode(p):
 
 
 def frames_equal(go, model):
-    """F section: the call frames of the program in creation order. Go (hook func.frame, hooks/C05.patch) reports scope
-    name > name of the scope it is linked to [names held when the body starts, sorted]; the model reports the same
-    with the names of the FINAL frame in insertion order: the names at the start must be exactly its first ones
-    (this / super / parameters come first: frame_contents). `F nohook`: the tree has no hook, nothing to compare."""
+    """F section: the call frames of the program. Go (hook func.frame) reports per frame: the kinds of the scopes it
+    is really linked to (b/f/g/r chain) and the names it holds when the body starts (sorted); the model reports its
+    frames with the same link description and the names of the FINAL frame in insertion order. Every frame Go
+    reports must be matched by a DISTINCT model frame with the same link whose first names are exactly those
+    (this / super / parameters come first: frame_contents); order is free (Go reports at link time, the model lists
+    by creation), and the model may list frames Go did not report. `F nohook`: the tree has no hook call site."""
     if go == "F nohook":
         return True
-    gf = [x for x in go[2:].split("|") if x]
-    mf = [x for x in model[2:].split("|") if x]
-    if len(gf) != len(mf):
+    if not go.startswith("F ") or "HOOK-PRESENT-BUT-SILENT" in go:
         return False
-    for g, m in zip(gf, mf):
-        gh, gn = g.split("[", 1)
-        mh, mn = m.split("[", 1)
-        gnames = [x for x in gn.rstrip("]").split(",") if x]
-        mnames = [x for x in mn.rstrip("]").split(",") if x]
-        if gh != mh or sorted(mnames[:len(gnames)]) != sorted(gnames):
-            return False
-    return True
+    def parse(t):
+        out = []
+        for x in t[2:].split("|"):
+            if x:
+                h, n = x.split("[", 1)
+                out.append((h, [y for y in n.rstrip("]").split(",") if y]))
+        return out
+    gf, mf = parse(go), parse(model)
+    if len(gf) > len(mf):
+        return False
+    edges = [[j for j, (mh, mn) in enumerate(mf) if mh == gh and sorted(mn[:len(gn)]) == sorted(gn)] for gh, gn in gf]
+    match = {}
+    def augment(i, seen):
+        for j in edges[i]:
+            if j not in seen:
+                seen.add(j)
+                if j not in match or augment(match[j], seen):
+                    match[j] = i
+                    return True
+        return False
+    return all(augment(i, set()) for i in range(len(gf)))
 
 
 def equal(go, model, attrs):
@@ -51,8 +64,24 @@ def equal(go, model, attrs):
     return True
 
 
+def post(ctx, cases, gores, model):
+    """evidence: how many cases had their call frames compared (hook present) and how many frames; masked sections"""
+    nframes = ncases = masked = 0
+    for i, g in gores.items():
+        secs = g.split(";")
+        if len(secs) > 3 and secs[3].startswith("F ") and secs[3] != "F nohook":
+            ncases += 1
+            nframes += len([x for x in secs[3][2:].split("|") if x])
+        m = model.get(i, ("", {}))[0]
+        if not m.startswith("UNSUP") and "U" in m.split(";"):
+            masked += 1
+    ctx.coverage["frames_compared"] = {"cases": ncases, "frames": nframes}
+    ctx.coverage["cases_with_masked_probe_sections"] = masked
+
+
 SPEC = dict(
     equal=equal,
+    post=post,
     lean_modules=["Ecal.Props.C05"],
     shards=12,
     rule=("cases = programs over the names {a,b,c,f,g,o} + probe expressions evaluated afterwards in the same global scope: "
